@@ -871,6 +871,10 @@ class Interp:
             if mod is not None and n.id in mod.imports and mod.imports[n.id][0] in ("itertools", "functools") \
                     and mod.imports[n.id][1] in ("islice", "chain", "reduce", "count", "zip_longest"):
                 return ("builtin", mod.imports[n.id][1])
+            if mod is not None and n.id in mod.imports and mod.imports[n.id][0] == "bisect" and mod.imports[n.id][1]:
+                import bisect as _bisect
+                if hasattr(_bisect, mod.imports[n.id][1]):
+                    return ("native", getattr(_bisect, mod.imports[n.id][1]))
             if mod is not None and n.id in mod.imports and mod.imports[n.id][0] in ("itertools", "operator") and mod.imports[n.id][1]:
                 # any other itertools / operator function: the real one, applied to interpreter values (callable arguments are
                 # wrapped by the native-call path)
